@@ -36,6 +36,8 @@ def render_task(ns: str, name: str, tdef: dict, ver: int, extra_opts: Optional[d
         opts.append(f"limits={units!r}")
     if tdef.get("scope", "BACKEND") != "BACKEND":
         opts.append(f'cache_scope="{tdef["scope"]}"')
+    if tdef.get("sh"):
+        opts.append('check_valid="shallow"')
     for k, val in (tdef.get("opts") or {}).items():
         opts.append(f"{k}={val!r}")
     for k, val in (extra_opts or {}).items():
@@ -129,13 +131,14 @@ def normalize(prog: dict) -> dict:
     for t in prog["tasks"].values():
         t.setdefault("h", 0)
         t.setdefault("scope", "BACKEND")
+        t.setdefault("sh", 0)
         t.setdefault("units", {})
         for v in t["vers"]:
             for c in v["children"]:
                 c.setdefault("g", 0)
                 guarded = guarded or bool(c["g"])
     # the recover task of guarded (catch) children is always declared, so that TLC sees one shape
-    prog["tasks"].setdefault("rec", {"units": {}, "h": 0, "scope": "BACKEND",
+    prog["tasks"].setdefault("rec", {"units": {}, "h": 0, "scope": "BACKEND", "sh": 0,
                                      "vers": [{"kind": "const", "add": -7, "children": []}]})
     prog["tnames"] = sorted(prog["tasks"])
     return prog
@@ -211,7 +214,7 @@ def random_program(rng, ns: str, max_kids: int = 4, p_fail: float = 0.25, plan: 
         "bad": {"units": units(0.5), "vers": [{"kind": "fail" if rng.random() < 0.7 else "noexec", "add": 0,
                                                 "children": []},
                                                {"kind": "leaf", "add": 3, "children": []}]},
-        "mid": {"units": units(0.15),
+        "mid": {"units": units(0.15), "sh": 1 if rng.random() < 0.35 else 0,
                 "vers": [{"kind": "calls", "add": 0, "children": kids(leafs, rng.randint(1, 3))},
                          {"kind": "calls", "add": 0, "children": kids(leafs, rng.randint(1, 2))}]},
         "main": {"units": {}, "vers": [{"kind": "calls", "add": 0,
